@@ -53,9 +53,12 @@ def _unitary(u, tol=1e-9):
 
 
 angle = st.floats(-50, 50, allow_nan=False, allow_infinity=False)
-cplx = st.builds(
-    lambda r, ph: [r * math.cos(ph), r * math.sin(ph)],
-    st.floats(0, 1.2), st.floats(-math.pi, math.pi),
+cplx = st.one_of(
+    st.builds(lambda r, ph: [r * math.cos(ph), r * math.sin(ph)], st.floats(0, 1.2), st.floats(-math.pi, math.pi)),
+    st.builds(lambda r, ph: [r * math.cos(ph), r * math.sin(ph)], st.floats(0, 1.2), st.floats(-math.pi, math.pi)),
+    # the axes exactly (sign functions, branch cuts): real positive / negative, purely imaginary
+    st.builds(lambda x: [x, 0.0], st.floats(-1.2, 1.2)),
+    st.builds(lambda y: [0.0, y], st.floats(-1.2, 1.2)),
 )
 
 
